@@ -323,10 +323,25 @@ func c18Run(tier string, seed int64, idx int) *core.Result {
 	}
 	victim := keys[0]
 	stopped := false
+	// slow-consumer variant: the consumers stop reading for 3.5 s of real time while an envelope sits
+	// in the run loop's hand-off - slow, not dead: nothing may be lost
+	slow := c.Family == "sequences" && idx%8 == 7
 	for n := 0; n < c.N; n++ {
 		key := keys[r.Intn(len(keys))]
 		if n == 0 || n == c.At+1 || n == c.At+2 {
 			key = victim // also right after the Cancel, with no other key in between
+		}
+		if slow && n == 5 {
+			pauseReaders.Store(true) // the victim's reader takes one more envelope, then waits at the gate
+		}
+		if slow && (n == 5 || n == 6) {
+			key = victim
+		}
+		if slow && n == 7 {
+			time.Sleep(3500 * time.Millisecond)
+			pauseReaders.Store(false)
+			readGate.OpenAll()
+			res.Stat("slow_consumer_pauses", 1)
 		}
 		if n == c.At {
 			switch c.Family {
@@ -536,8 +551,16 @@ func c18Run(tier string, seed int64, idx int) *core.Result {
 	}
 	// shutdown
 	keepWriting.Store(false)
+	endedBy := "Stop"
 	if !stopped {
-		dm.Stop()
+		if c.Family == "sequences" && idx%4 == 3 {
+			// the run loop ends because the shared transport's read side fails, not by Stop
+			shared.B.FailRead()
+			endedBy = "a read failure of the shared transport"
+			res.Stat("runs_ended_by_transport_failure", 1)
+		} else {
+			dm.Stop()
+		}
 	}
 	readGate.OpenAll()
 	final, snap := quiet(tier)
@@ -545,9 +568,16 @@ func c18Run(tier string, seed int64, idx int) *core.Result {
 		select {
 		case <-runDone:
 		default:
-			res.ViolateD("run-does-not-return-after-stop/"+c.Family, map[string]any{"goat_goroutines": goatParked(snap)}, "Demux.Run has not returned at a final state after Stop (%s)", c.Family)
+			res.ViolateD("run-does-not-return-after-stop/"+c.Family, map[string]any{"goat_goroutines": goatParked(snap)}, "Demux.Run has not returned at a final state after %s (%s)", endedBy, c.Family)
 		}
 		res.Stat("stops_checked", 1)
+		// the owner goes on tidying up after the run loop has ended: every key is cancelled (a crash
+		// here ends the child process and is attributed to this case)
+		core.Cursor("Cancel(key) for every key after Demux.Run ended by " + endedBy)
+		for _, key := range keys {
+			dm.Cancel(key)
+		}
+		res.Stat("keys_cancelled_after_run_ended", int64(len(keys)))
 	} else if res.Verdict == core.Held {
 		res.Verdict, res.Note = core.Inconclusive, "no final state after Stop"
 	}
@@ -574,7 +604,7 @@ func init() {
 	core.Register(&core.Prop{
 		ID:             "C18",
 		Level:          "fault_enumeration",
-		Rule:           "(sequences) 1..8 keys, 200..600 uniquely numbered envelopes with random keys on the shared link, one always-draining reader and one writer goroutine per announced logical connection: per key the sequence read equals the fed subsequence, one announcement per key, every envelope written on a logical connection arrives unchanged exactly once on the shared transport; every fourth case the shared transport fails one write and works again (every eighth: after the first connection's first Write was given up by its caller while the shared transport was stalled inside it): the writers go on, every later write must return and nothing whose Write returned nil may be missing. (cancel / cancel-writer) Cancel(key) after step s, with a writer hammering the connection: no Write begun after Cancel returned succeeds, and none of their envelopes reaches the shared transport; (cancel-handoff) Cancel placed by a rendezvous hook exactly between Run's lookup and its hand-off; (stop / stop-handoff) Stop after step s, also while Run is parked handing over to consumers that do not read: the process must survive, reads/writes on the cancelled connection return, Run returns - all judged at final states. (rpc) C01 fan-in cases and C02 cases forced through k clients - fan-in - Demux - one Server. Distinct = case tuples; all non-trivial.",
+		Rule:           "(sequences) 1..8 keys, 200..600 uniquely numbered envelopes with random keys on the shared link, one always-draining reader and one writer goroutine per announced logical connection: per key the sequence read equals the fed subsequence, one announcement per key, every envelope written on a logical connection arrives unchanged exactly once on the shared transport; every fourth case the shared transport fails one write and works again (every eighth: after the first connection's first Write was given up by its caller while the shared transport was stalled inside it): the writers go on, every later write must return and nothing whose Write returned nil may be missing. (cancel / cancel-writer) Cancel(key) after step s, with a writer hammering the connection: no Write begun after Cancel returned succeeds, and none of their envelopes reaches the shared transport; (cancel-handoff) Cancel placed by a rendezvous hook exactly between Run's lookup and its hand-off; (stop / stop-handoff) Stop after step s, also while Run is parked handing over to consumers that do not read: the process must survive, reads/writes on the cancelled connection return, Run returns - all judged at final states; every eighth sequences case has consumers that stop reading for 3.5 s of real time with an envelope in the run loop's hand-off (nothing may be lost); every fourth sequences case ends its run loop by a read failure of the shared transport instead of Stop; after the run loop has ended every key is cancelled (the owner's tidy-up), which must not crash. (rpc) C01 fan-in cases and C02 cases forced through k clients - fan-in - Demux - one Server. Distinct = case tuples; all non-trivial.",
 		Plan:           func(tier string, seed int64) int { return len(c18List(tier)) },
 		ThoroughRounds: 8,
 		Run:            c18Run,
